@@ -56,6 +56,8 @@ def main():
         rec = json.load(open(a.replay_crash))
         clause = {c.name: c for c in mod.CLAUSES}[rec["clause"]]
         st = harness.ClauseStats(clause.name)
+        limit_memory()
+        print("REPLAY-CRASH-EVALUATING", flush=True)      # everything after this line is the library's doing
         harness.evaluate(clause, rec["case"], st, [])
         return 0
     if a.replay:
@@ -90,9 +92,10 @@ def replay(prop, path):
         r = subprocess.run([sys.executable, os.path.abspath(__file__), prop, "--replay-crash", tmp, "--shard", "0",
                             "--nshards", "1"], cwd=VERIF, env=env2, capture_output=True, text=True)
         os.unlink(tmp)
-        if r.returncode < 0:
+        if r.returncode != 0 and "REPLAY-CRASH-EVALUATING" in (r.stdout or ""):
             print("VIOLATION property=%s replay=%s" % (prop, path))
-            print("  clause=%s interpreter killed by signal %d" % (clause.name, -r.returncode))
+            print("  clause=%s interpreter ended abnormally (%s)" % (
+                clause.name, "signal %d" % -r.returncode if r.returncode < 0 else "exit status %d" % r.returncode))
             return 1
         print("REPLAY-OK property=%s clause=%s (case no longer crashes)" % (prop, clause.name))
         return 0
@@ -248,15 +251,16 @@ def run_parent(prop, tier, seed, nshards, clause_filter, scale):
         if not os.path.exists(out):
             tail = open(os.path.join(tmpd, "shard%d.log" % i)).read()[-2000:]
             confirmed = None
-            if isinstance(rc, int) and rc < 0 and os.path.exists(out + ".last") and os.path.getsize(out + ".last") > 0:
-                # the interpreter was killed by a signal: re-run the last case alone, in a fresh process
+            if isinstance(rc, int) and rc != 0 and os.path.exists(out + ".last") and os.path.getsize(out + ".last") > 0:
+                # the interpreter was killed by a signal, or a C library ended the process (e.g. libgomp's "Out of
+                # memory" exit under the shard's memory limit): re-run the last case alone, in a fresh process
                 cmd = [sys.executable, os.path.abspath(__file__), prop, "--replay-crash", out + ".last",
                        "--shard", "0", "--nshards", "1"]
                 env2 = dict(os.environ)
                 env2["VERIF_NO_LASTCASE"] = "1"
                 try:
                     r2 = subprocess.run(cmd, cwd=VERIF, env=env2, capture_output=True, text=True, timeout=900)
-                    confirmed = r2.returncode < 0
+                    confirmed = r2.returncode != 0 and "REPLAY-CRASH-EVALUATING" in (r2.stdout or "")
                     rc2 = r2.returncode
                 except subprocess.TimeoutExpired:
                     confirmed, rc2 = False, "timeout"
@@ -266,12 +270,18 @@ def run_parent(prop, tier, seed, nshards, clause_filter, scale):
                     os.makedirs(d, exist_ok=True)
                     path = os.path.join(d, "%s-crash-%s.json" % (rec["clause"], harness.case_hash(rec["case"])))
                     json.dump({"property": prop, "clause": rec["clause"], "case": rec["case"],
-                               "message": "interpreter killed by signal %d while evaluating this case (reproduced in a "
-                                          "fresh process: signal %d)" % (-rc, -rc2), "signature": "crash"},
+                               "message": "interpreter ended abnormally (%s) while evaluating this case (reproduced in a "
+                                          "fresh process: %s)%s" % (
+                                              "signal %d" % -rc if rc < 0 else "exit status %d" % rc,
+                                              "signal %d" % -rc2 if rc2 < 0 else "exit status %d" % rc2,
+                                              (": " + tail.strip().splitlines()[-1][:200]) if tail.strip() else ""),
+                               "signature": "crash"},
                               open(path, "w"), indent=1)
                     crash_failures.append({"clause": rec["clause"], "replay": path, "reproduced": True, "signature": "crash",
-                                           "message": "interpreter killed by signal %d while evaluating this case; "
-                                                      "reproduced in a fresh process" % (-rc)})
+                                           "message": "interpreter ended abnormally (%s) while evaluating this case; "
+                                                      "reproduced in a fresh process%s" % (
+                                                          "signal %d" % -rc if rc < 0 else "exit status %d" % rc,
+                                                          (": " + tail.strip().splitlines()[-1][:200]) if tail.strip() else "")})
             if not confirmed:
                 harness_errors.append("shard %d died rc=%s (crash not reproducible from its last case): %s" % (i, rc, tail))
             continue
